@@ -18,6 +18,7 @@
 #include <time.h>
 
 static long long vh_time_budget_ns = 0, vh_time_deadline_ns = 0;
+static int vh_last_budget_kind = 0;     /* which budget fired last: 0 none, 1 instructions, 2 CPU time */
 static int ts_vclock_on = 0;
 static long long ts_vclock_usec = 1000000000LL * 1000000LL;
 static int ts_sched_on = 0;
@@ -95,10 +96,11 @@ static sexp_sint_t ts_on_instr(sexp ctx, unsigned char *ip, sexp_sint_t fuel) {
   if (vh_budget && vh_time_budget_ns && (vh_instrs & 255) == 255) {
     struct timespec ts;
     clock_gettime(CLOCK_PROCESS_CPUTIME_ID, &ts);   /* CPU time: independent of machine load */
-    if ((long long)ts.tv_sec * 1000000000LL + ts.tv_nsec > vh_time_deadline_ns) vh_instrs = vh_budget;
+    if ((long long)ts.tv_sec * 1000000000LL + ts.tv_nsec > vh_time_deadline_ns) { vh_instrs = vh_budget; vh_last_budget_kind = 2; }
   }
   /* instruction budget (per top-level form), delivered through the interrupt path */
   if (vh_budget && ++vh_instrs > vh_budget) {
+    if (vh_last_budget_kind != 2) vh_last_budget_kind = 1;      /* 1: the instruction count ran out; 2: the CPU-time budget */
     vh_instrs = 0;
     vh_budget_hits++;
     if (vh_time_budget_ns) vh_budget = 0;   /* per-call budgets fire once: the handler runs unbudgeted */
